@@ -18,6 +18,15 @@ Engine E3, two exhaustive layers plus one named probe (DESIGN.md section 6, C01)
     the same control state (exception class, error token, the full parse_* call stack with line
     numbers) are represented by the simplest one.  The last token is never merged.
 
+(K) const-ness.  For every production that takes Value[Const] / Directives[Const] (42 places: default values
+    of variable, argument and input-field definitions; directives on every type-system definition and
+    extension kind and on variable definitions) and for 12 non-Const places of executable definitions, the
+    minimal instance with a hole filled by 3 constants and 9 placements of a variable (top level, in a list,
+    in an object, nested twice), all 4 flag combinations, full cross product of variants.
+(S) contexts seeded from those minimal instances: every proper prefix (731) is a start prefix of the
+    search of (P), explored to a relative depth of 2 (quick) / 3 (thorough) -- every token of the alphabet is
+    tried at every position of every production, however deep.
+
 (probe) nesting depth 5000 for five nested shapes, outcome recorded.
 
 Oracle (property text + oracle decisions (i)-(iv) of DESIGN 4.2): accept <=> reference accepts, for
@@ -57,6 +66,8 @@ RULE = (
     "alphabet^n (all n up to the bound), under 16 (flags x str/bytes) configurations ('all') or 2 diagonal ones ('diag'); "
     "P: one evaluation = one parse call on a token sequence prefix+[t] for every token t at every explored prefix, under "
     "4 diagonal (no_location x str/bytes x layout) variants, full 16-64 variant cross product for short inputs; "
+    "K: every (Const or non-Const place of the grammar, filler with/without a variable, flag combination) under the full cross product; "
+    "S: the prefix search of P started from every proper prefix of K's minimal instances, to a small relative depth; "
     "distinct_nontrivial counts distinct (entry point, grammar flags, text) accepted by the reference grammar (both sides "
     "ran to the end of input); inputs rejected after the first token are counted in counter nontrivial_rejects (distinct by "
     "construction: the enumeration never repeats an input)"
@@ -198,6 +209,9 @@ def _bounds(tier):
             "max_input_tokens_if_time_cap_cuts_tier_B": {"%s%s%s" % (k[0], "+ts" if k[1] else "", "+fv" if k[2] else ""): v[0] + 1 for k, v in P_PLAN[tier]["depth"].items()},
             "full_variant_cross_product_up_to_tokens": P_PLAN[tier]["fullx"],
         },
+        "K": {"const_places": sum(1 for t in K_TEMPLATES if t[1]), "non_const_places": sum(1 for t in K_TEMPLATES if not t[1]),
+              "fillers": len(K_FILLERS), "flag_combinations": 4, "variants_per_input": "full cross product (16; 64 for parse_value)"},
+        "S": {"seed_prefixes": len(_s_seeds()), "relative_depth": S_REL_DEPTH[tier]},
         "probe_depth": 5000,
         "planned_cases": _planned(tier),
     }
@@ -533,6 +547,9 @@ def _related(kind, value, expected):
         r = [x for x in expected if x in _NAME_TERMINALS or x.startswith("kw:")]
     elif kind in ("String", "BlockString"):
         r = [x for x in expected if x in ("String", "BlockString") or x == "kw:" + value]
+    elif kind == "$" and "Int" in expected and "[" in expected:
+        # a variable where the grammar wants Value[Const] (directly or as a list item)
+        r = ["<const-value>"]
     else:
         r = []
     if kind == "Name" and len(r) > 6:
@@ -1078,6 +1095,178 @@ def _check_P(case, st):
 
 
 # ------------------------------------------------------------------------------------------
+# layers K (const-ness) and S (contexts seeded from minimal instances)
+#
+# The prefix search reaches 6-10 tokens; the *places* where the grammar takes Value[Const] /
+# Directives[Const] lie deeper (`enum E { A @d(x: #) }` is 12 tokens).  K writes down, for EVERY
+# production of the reference grammar that takes a Const value or Const directives, the minimal valid
+# instance with a hole, and for the dual every non-Const place of the executable grammar; the hole is
+# filled with a variable at top level, inside a list, inside an object value and nested twice, plus
+# constant controls.  The verdict still comes from the Earley recogniser (the self-test asserts that
+# it rejects / accepts what the Const parameter says).  S re-uses the same minimal instances as
+# *seeds* for the prefix search: every proper prefix of every instance is explored to a small
+# relative depth, so that every token of the alphabet is tried at every position of every
+# production, however deep that position lies.
+
+_DIR = "@ a ( a : # )"
+# (name, const?, start symbol, home allow_type_system, home fragment variables, tokens with hole '#')
+K_TEMPLATES = [
+    # ---- Directives[Const] on every type-system definition / extension kind
+    ("dir/schema", 1, "Document", 1, 0, "schema %s { query : a }" % _DIR),
+    ("dir/extend-schema", 1, "Document", 1, 0, "extend schema %s" % _DIR),
+    ("dir/extend-schema-ops", 1, "Document", 1, 0, "extend schema %s { query : a }" % _DIR),
+    ("dir/scalar", 1, "Document", 1, 0, "scalar a %s" % _DIR),
+    ("dir/extend-scalar", 1, "Document", 1, 0, "extend scalar a %s" % _DIR),
+    ("dir/object", 1, "Document", 1, 0, "type a %s { a : a }" % _DIR),
+    ("dir/object-implements", 1, "Document", 1, 0, "type a implements a %s" % _DIR),
+    ("dir/extend-object", 1, "Document", 1, 0, "extend type a %s" % _DIR),
+    ("dir/field-definition", 1, "Document", 1, 0, "type a { a : a %s }" % _DIR),
+    ("dir/extend-object-field-definition", 1, "Document", 1, 0, "extend type a { a : a %s }" % _DIR),
+    ("dir/interface-field-definition", 1, "Document", 1, 0, "interface a { a : a %s }" % _DIR),
+    ("dir/extend-interface-field-definition", 1, "Document", 1, 0, "extend interface a { a : a %s }" % _DIR),
+    ("dir/argument-definition", 1, "Document", 1, 0, "type a { a ( a : a %s ) : a }" % _DIR),
+    ("dir/argument-definition-after-default", 1, "Document", 1, 0, "type a { a ( a : a = 1 %s ) : a }" % _DIR),
+    ("dir/interface-argument-definition", 1, "Document", 1, 0, "interface a { a ( a : a %s ) : a }" % _DIR),
+    ("dir/directive-argument-definition", 1, "Document", 1, 0, "directive @ a ( a : a %s ) on QUERY" % _DIR),
+    ("dir/interface", 1, "Document", 1, 0, "interface a %s" % _DIR),
+    ("dir/extend-interface", 1, "Document", 1, 0, "extend interface a %s" % _DIR),
+    ("dir/union", 1, "Document", 1, 0, "union a %s = a" % _DIR),
+    ("dir/extend-union", 1, "Document", 1, 0, "extend union a %s" % _DIR),
+    ("dir/enum", 1, "Document", 1, 0, "enum a %s { a }" % _DIR),
+    ("dir/extend-enum", 1, "Document", 1, 0, "extend enum a %s" % _DIR),
+    ("dir/enum-value", 1, "Document", 1, 0, "enum a { a %s }" % _DIR),
+    ("dir/enum-value-described", 1, "Document", 1, 0, 'enum a { "s" a %s a }' % _DIR),
+    ("dir/extend-enum-value", 1, "Document", 1, 0, "extend enum a { a %s }" % _DIR),
+    ("dir/input-object", 1, "Document", 1, 0, "input a %s { a : a }" % _DIR),
+    ("dir/extend-input-object", 1, "Document", 1, 0, "extend input a %s" % _DIR),
+    ("dir/input-field", 1, "Document", 1, 0, "input a { a : a %s }" % _DIR),
+    ("dir/input-field-after-default", 1, "Document", 1, 0, "input a { a : a = 1 %s }" % _DIR),
+    ("dir/extend-input-field", 1, "Document", 1, 0, "extend input a { a : a %s }" % _DIR),
+    # ---- Directives[Const] on variable definitions (documented extension)
+    ("dir/variable-definition", 1, "Document", 0, 0, "query ( $ a : a %s ) { a }" % _DIR),
+    ("dir/variable-definition-after-default", 1, "Document", 0, 0, "query ( $ a : a = 1 %s ) { a }" % _DIR),
+    ("dir/fragment-variable-definition", 1, "Document", 0, 1, "fragment a ( $ a : a %s ) on a { a }" % _DIR),
+    # ---- DefaultValue : = Value[Const]
+    ("default/variable-definition", 1, "Document", 0, 0, "query ( $ a : a = # ) { a }"),
+    ("default/second-variable-definition", 1, "Document", 0, 0, "mutation a ( $ a : a $ a : [ a ] ! = # ) { a }"),
+    ("default/fragment-variable-definition", 1, "Document", 0, 1, "fragment a ( $ a : a = # ) on a { a }"),
+    ("default/argument-definition", 1, "Document", 1, 0, "type a { a ( a : a = # ) : a }"),
+    ("default/extend-object-argument-definition", 1, "Document", 1, 0, "extend type a { a ( a : a = # ) : a }"),
+    ("default/interface-argument-definition", 1, "Document", 1, 0, "interface a { a ( a : a = # ) : a }"),
+    ("default/directive-argument-definition", 1, "Document", 1, 0, "directive @ a ( a : a = # ) on QUERY"),
+    ("default/input-field", 1, "Document", 1, 0, "input a { a : a = # }"),
+    ("default/extend-input-field", 1, "Document", 1, 0, "extend input a { a : a = # }"),
+    # ---- the dual: non-Const places of executable definitions (and the standalone value entry point)
+    ("nonconst/field-argument", 0, "Document", 0, 0, "{ a ( a : # ) }"),
+    ("nonconst/aliased-field-second-argument", 0, "Document", 0, 0, "query a { a : a ( a : 1 a : # ) { a } }"),
+    ("nonconst/field-directive", 0, "Document", 0, 0, "{ a %s }" % _DIR),
+    ("nonconst/field-directive-after-arguments", 0, "Document", 0, 0, "{ a ( a : 1 ) %s { a } }" % _DIR),
+    ("nonconst/operation-directive", 0, "Document", 0, 0, "query %s { a }" % _DIR),
+    ("nonconst/operation-directive-after-variables", 0, "Document", 0, 0, "subscription a ( $ a : a ) %s { a }" % _DIR),
+    ("nonconst/fragment-spread-directive", 0, "Document", 0, 0, "{ ... a %s }" % _DIR),
+    ("nonconst/inline-fragment-directive", 0, "Document", 0, 0, "{ ... %s { a } }" % _DIR),
+    ("nonconst/inline-fragment-on-directive", 0, "Document", 0, 0, "{ ... on a %s { a } }" % _DIR),
+    ("nonconst/fragment-definition-directive", 0, "Document", 0, 0, "fragment a on a %s { a }" % _DIR),
+    ("nonconst/fragment-definition-directive-after-variables", 0, "Document", 0, 1, "fragment a ( $ a : a ) on a %s { a }" % _DIR),
+    ("nonconst/parse_value", 0, "Value", 0, 0, "#"),
+]
+# fillers of the hole: (name, tokens, contains a variable?)
+K_FILLERS = [
+    ("const", "1", 0),
+    ("const-list", "[ 1 a ]", 0),
+    ("const-object", "{ a : 1 }", 0),
+    ("variable", "$ a", 1),
+    ("variable-named-by-keyword", "$ on", 1),
+    ("variable-in-list", "[ $ a ]", 1),
+    ("variable-after-constant-in-list", "[ 1 $ a ]", 1),
+    ("variable-in-object", "{ a : $ a }", 1),
+    ("variable-in-second-object-field", "{ a : 1 a : $ a }", 1),
+    ("variable-in-object-in-list", "[ { a : $ a } ]", 1),
+    ("variable-in-list-in-object", "{ a : [ $ a ] }", 1),
+    ("variable-in-list-in-list", "[ [ $ a ] ]", 1),
+]
+K_INDEX = {t[0]: i for i, t in enumerate(K_TEMPLATES)}
+_FLAG_COMBOS = [(0, 0), (0, 1), (1, 0), (1, 1)]
+S_REL_DEPTH = {"quick": 2, "thorough": 3}
+
+
+def _k_tokens(template, filler):
+    out = []
+    for t in template.split():
+        if t == "#":
+            out.extend(filler.split())
+        else:
+            out.append(t)
+    return tuple(TOKEN_BY_LEXEME[x] for x in out)
+
+
+def _check_K(case, st):
+    name, const, start, hts, hfv, template = K_TEMPLATES[K_INDEX[case["template"]]]
+    combos = _FLAG_COMBOS if start == "Document" else [(0, 0)]
+    for fname, filler, _has_var in K_FILLERS:
+        toks = _k_tokens(template, filler)
+        for ts, fv in combos:
+            R = RG.recogniser(start, ts, fv)
+            ok, _ = R.run([TOK_CLASSES[t] for t in toks])
+            found, base = _test_sequence(start, ts, fv, toks, ok, _p_variants(start, ts, fv, True), st)
+            st.n("K/inputs")
+            if ok and base[0] == "ok":
+                st.nt((start, ts, fv, base[2]))
+                if fname == "variable-in-object-in-list" and len(st.samples) < st.MAX_SAMPLES:
+                    st.sample({"layer": "K", "template": name, "filler": fname, "entry": ENTRY_OF_START[start], "allow_type_system": ts,
+                               "experimental_fragment_variables": fv, "text": base[2], "verdict": "accepted by both"})
+            else:
+                st.n("nontrivial_rejects")
+            for cls, d in found.items():
+                yield cls, {"layer": "P", "start": start, "ts": ts, "fv": fv, "toks": [TOKENS[i][0] for i in toks]}, "[K %s / %s] %s" % (name, fname, d)
+
+
+def _s_seeds():
+    """distinct proper prefixes (>= 2 tokens) of the minimal instances, under the instance's home flags; simplest first"""
+    seen = set()
+    out = []
+    for name, const, start, hts, hfv, template in K_TEMPLATES:
+        if start != "Document":
+            continue
+        for filler in ("1", "$ a"):
+            toks = _k_tokens(template, filler)
+            for n in range(2, len(toks)):
+                key = (hts, hfv, toks[:n])
+                if key not in seen:
+                    seen.add(key)
+                    out.append(key)
+    out.sort(key=lambda k: (len(k[2]), k))
+    return out
+
+
+def _check_S(case, st):
+    ts, fv = case["ts"], case["fv"]
+    prefix = tuple(TOKEN_BY_LEXEME[x] for x in case["prefix"])
+    s = _PSearch("Document", ts, fv, 0, st)
+    chart = s.chart_of(prefix)
+    st.n("S/seeds")
+    s.dfs(prefix, chart, len(prefix) + case["rel_depth"] - 1, 0)
+    if s.cut:
+        st.n("S/cut")
+    return s.out
+
+
+def _k_selftest():
+    """the reference grammar says what the Const parameter says, on every instance"""
+    for name, const, start, hts, hfv, template in K_TEMPLATES:
+        R = RG.recogniser(start, hts, hfv)
+        for fname, filler, has_var in K_FILLERS:
+            toks = _k_tokens(template, filler)
+            ok, _ = R.run([TOK_CLASSES[t] for t in toks])
+            want = not (const and has_var)
+            assert ok == want, ("reference grammar: %s with %s should be %s" % (name, fname, "accepted" if want else "rejected"))
+            if start == "Document" and (hts, hfv) != (1, 1):
+                # more permissive flags never change the verdict of an instance that is already at home
+                ok2, _ = RG.recogniser(start, 1, 1).run([TOK_CLASSES[t] for t in toks])
+                assert ok2 == want, (name, fname, "ts+fv")
+
+
+# ------------------------------------------------------------------------------------------
 # probe
 
 
@@ -1130,6 +1319,7 @@ def _check_probe(case, st):
 
 def selftest():
     RG.selftest()
+    _k_selftest()
     # token alphabet and reference lexer agree on what each lexeme is
     for lx, kind, value in TOKENS:
         toks, err = RL.lex(lx)
@@ -1149,6 +1339,8 @@ def _tag(case):
     if case["layer"] == "P":
         name = "%s%s%s" % (case["start"], "+ts" if case["ts"] else "", "+fv" if case["fv"] else "")
         return "P/%s/%s" % (name, "root" if case["kind"] == "root" else "tier" + case["tier"])
+    if case["layer"] in ("K", "S"):
+        return case["layer"]
     return "probe"
 
 
@@ -1193,6 +1385,11 @@ def cases(tier):
         yield {"layer": "P", "kind": "root", "start": start, "ts": ts, "fv": fv, "shard": plan["shard"], "fullx": plan["fullx"]}
     for shape in PROBE_SHAPES:
         yield {"layer": "probe", "shape": shape, "depth": PROBE_DEPTH}
+    # ... every Const / non-Const place of the grammar, and the contexts seeded from their minimal instances ...
+    for t in K_TEMPLATES:
+        yield {"layer": "K", "template": t[0]}
+    for ts, fv, toks in _s_seeds():
+        yield {"layer": "S", "ts": ts, "fv": fv, "prefix": [TOKENS[i][0] for i in toks], "rel_depth": S_REL_DEPTH[tier]}
     # ... the prefix search to its first depth, the longer strings, the prefix search one token deeper
     for c in _p_cases(tier, 0):
         yield c
@@ -1220,6 +1417,10 @@ def check_case(case, st):
         out = list(_check_L(case, st))
     elif layer == "P":
         out = list(_check_P(case, st))
+    elif layer == "K":
+        out = list(_check_K(case, st))
+    elif layer == "S":
+        out = list(_check_S(case, st))
     else:
         w = {"layer": "probe", "shape": case["shape"], "depth": case["depth"]}
         out = [(cls, w, d) for cls, d in _check_probe(case, st)]
